@@ -480,51 +480,7 @@ func (w *World) leftFieldOf(qt *QType) string {
 	if od == nil {
 		return ""
 	}
-	// the builder function: find processNode(root.<X>) assignments in order
-	fd := od.Switch.Func
-	fn := w.Prog.FuncValue(w.Info.Defs[fd.Name].(*types.Func))
-	if fn == nil {
-		return ""
-	}
-	// the first call whose argument is a load of a field of the operator node
-	// parameter defines "left"
-	var firstVal ssa.Value
-	eachInstr(fn, false, func(_ *ssa.Function, in ssa.Instruction) {
-		if firstVal != nil {
-			return
-		}
-		c, ok := in.(*ssa.Call)
-		if !ok || c.Call.StaticCallee() == nil || !w.inPkg(c.Call.StaticCallee()) {
-			return
-		}
-		for _, a := range c.Call.Args {
-			if ld, ok := a.(*ssa.UnOp); ok {
-				if fa, ok := ld.X.(*ssa.FieldAddr); ok {
-					if p, ok := fa.X.(*ssa.Parameter); ok && p.Parent() == fn {
-						for _, u := range uses(c) {
-							if ex, ok := u.(*ssa.Extract); ok && ex.Index == 0 {
-								firstVal = ex
-							}
-						}
-					}
-				}
-			}
-		}
-	})
-	if firstVal == nil {
-		return ""
-	}
-	name := ""
-	eachInstr(fn, false, func(_ *ssa.Function, in ssa.Instruction) {
-		st, ok := in.(*ssa.Store)
-		if !ok || st.Val != firstVal {
-			return
-		}
-		if fa, ok := st.Addr.(*ssa.FieldAddr); ok && structOfAddr(fa) == qt.Named {
-			name = fieldOfAddr(fa).Name()
-		}
-	})
-	return name
+	return od.Left[qt.Name()]
 }
 
 // ---------- N-ITER ----------
@@ -940,7 +896,6 @@ func ruleNRestore(w *World, r *Report) {
 	// any other mutation of the context register is decided by N-OWN
 	_ = allOK
 }
-
 
 func (w *World) allMoversRestore() bool {
 	for _, fn := range w.AllFuncs {
